@@ -16,6 +16,8 @@ CONSTANTS
   PrefixOf <- MCPrefixOf
   CacheSize = 2
   SubCap = 2
+  RingCap = 0
+  ClearInvalid = TRUE
   SeqDetail = FALSE
   TsoDetail = FALSE
   Readers = {}
